@@ -171,3 +171,20 @@ func (c *Ctx) tableName(fi *load.FuncInfo) string {
 	}
 	return scopeShortName(fi)
 }
+
+var pinnedCache map[string]bool
+
+// pinnedNames: "pkg|Recv.Name" of every function of the pinned tree.
+func pinnedNames() map[string]bool {
+	if pinnedCache != nil {
+		return pinnedCache
+	}
+	pinnedCache = map[string]bool{}
+	var table []anchorPrint
+	if json.Unmarshal(anchorsJSON, &table) == nil {
+		for _, a := range table {
+			pinnedCache[a.Pkg+"|"+a.Name] = true
+		}
+	}
+	return pinnedCache
+}
